@@ -16,6 +16,7 @@ func init() {
 		Floors:      []Floor{{"E5.R-storage", 40}},
 		Run: func(c *Ctx) {
 			RunStorageErrors(c)
+			RunE1(c, "C10", append([]Ob{}, sharedObs["C10"]...)) // error redirects go only to a validated URI (obligations owned by C03)
 			RunDiscard(c, "C10", []string{"op"})
 		},
 	})
